@@ -42,6 +42,7 @@ var properties = map[string][]harnessSpec{
 	"C02": {
 		{Name: "play.VerifC01WriteSequence", Quick: map[string]int{"C01.maxInstances": 2}, Thorough: map[string]int{"C01.maxInstances": 3}, Marks: end},
 		{Name: "midix.VerifC02NoteStep", Quick: map[string]int{"C02.maxTracks": 3, "C02.maxKeys": 4}, Thorough: map[string]int{"C02.maxTracks": 4, "C02.maxKeys": 6}, Marks: end},
+		{Name: "midix.VerifC02TwoNotes", Quick: map[string]int{"C02.maxTracks2": 3}, Thorough: map[string]int{"C02.maxTracks2": 4}, Marks: end},
 		{Name: "midix.VerifC02RestStep", Marks: end},
 		{Name: "midix.VerifC02ControlStep", Marks: end},
 		{Name: "midix.VerifC02Ticks1", Solver: "cvc5", TimeoutS: 120, Quick: map[string]int{"C02.numDenoms1": 12, "C02.maxNum1": 255}, Thorough: map[string]int{"C02.numDenoms1": 39, "C02.maxNum1": 1023}, Marks: end},
@@ -53,6 +54,7 @@ var properties = map[string][]harnessSpec{
 		{Name: "play.VerifC07SettingsStep", Marks: end},
 		{Name: "play.VerifC07Texts", Quick: map[string]int{"C07.maxText": 3}, Thorough: map[string]int{"C07.maxText": 6}, Marks: end},
 		{Name: "play.VerifC07Dynamics", Marks: end},
+		{Name: "midix.VerifC08File", Quick: map[string]int{"C08.maxOps": 2, "C08.maxTracks": 2, "C08.maxKeys": 1}, Thorough: map[string]int{"C08.maxOps": 2, "C08.maxTracks": 2, "C08.maxKeys": 2}, Marks: end},
 		{Name: "play.VerifC07Defaults", Marks: end},
 	},
 	"C03": {
